@@ -240,6 +240,7 @@ func init() {
 		"math.Float32frombits": func(fr *frame, a []value) value { return math.Float32frombits(a[0].(uint32)) },
 		"math/bits.Len64": func(fr *frame, a []value) value { return bitsLen(a[0].(uint64)) },
 		"math/bits.Len":   func(fr *frame, a []value) value { return bitsLen(uint64(a[0].(uint))) },
+		"crypto/sha256.Sum256": extSHA256,
 	} {
 		externals[k] = v
 	}
